@@ -37,6 +37,8 @@ QUICK = [
     _k('coarse_storage_discounted', opt='coarse', kind='storage', T=4, eff=0.75, wacc=True, freq='d', coarse='2d'),
     _k('coarse_contract_ends_inside_unaligned', opt='coarse', kind='contract', T=6, win=(1, 4), ec=True),
     _k('coarse_transport_ends_inside_unaligned', opt='coarse', kind='transport', T=6, win=(0, 3), eff=0.5),
+    _k('coarse_transport_cost_series_window_ends_before_horizon', opt='coarse', kind='transport', T=6, win=(0, 4), eff=0.5, costs=True, cost_ts=True),
+    _k('coarse_transport_cost_series_window_starts_late', opt='coarse', kind='transport', T=6, win=(2, 6), eff=0.5, cost_ts=True),
     _k('coarse_contract_ends_inside_after_another_coarse_asset', opt='coarse', kind='contract', T=4, win=(0, 3), ec=True, other_coarse=True),
     _k('coarse_contract_straddles_start', opt='coarse', kind='contract', T=4, win=(-1, 5)),
     _k('coarse_transport', opt='coarse', kind='transport', T=4, eff=0.5),
@@ -92,12 +94,12 @@ def cases(tier, seed):
 
 
 # ------------------------------------------------------------------------------------------------ builders
-def mk_asset(D, kind, T, tg, nA, nB, opt_kw, ec=False, eff=None, win=None, costs=False, take=None):
+def mk_asset(D, kind, T, tg, nA, nB, opt_kw, ec=False, eff=None, win=None, costs=False, take=None, cost_ts=False):
     eao = lift.import_eao()
     if kind == 'contract':
         return shapes.mk_market(D, 'as', nA, T, 'r', ec=ec, win=win, tg=tg, **opt_kw)
     if kind == 'transport':
-        return shapes.mk_transport(D, 'as', nA, nB, eff=eff, costs=costs, win=win, tg=tg, **opt_kw)
+        return shapes.mk_transport(D, 'as', nA, nB, eff=eff, costs=costs, win=win, tg=tg, cost_ts=('r' if cost_ts else None), **opt_kw)     # cost_ts: costs per flow as a time series
     if kind == 'ext_transport':
         return shapes.mk_transport(D, 'as', nA, nB, eff=eff, costs=costs, win=win, tg=tg, cls=eao.assets.ExtendedTransport, **opt_kw)
     if kind == 'storage':
